@@ -175,7 +175,7 @@ class Integrate:
         # Each span is sampled on its own piece: a node at the end of a span
         # must not take the value of the next span (discontinuous curves)
         for piece, start, end in zip(curve.split(), knots[:-1], knots[1:]):
-            nodes = tuple(start + (end - start) * node for node in nodes_0to1)
+            nodes = tuple((1 - node) * start + node * end for node in nodes_0to1)
             curve_vals = tuple(piece.eval(node) for node in nodes)
             function_vals = tuple(function(node) for node in nodes)
             new_integral = sum(
@@ -280,7 +280,7 @@ class Integrate:
         integrals = []
         # Each span is sampled on its own piece (see Integrate.scalar)
         for piece, start, end in zip(curve.split(), knots[:-1], knots[1:]):
-            nodes = tuple(start + (end - start) * node for node in nodes_0to1)
+            nodes = tuple((1 - node) * start + node * end for node in nodes_0to1)
             curve_vals = tuple(piece.eval(node) for node in nodes)
             abscurve_vals = tuple(np.sqrt(float(val @ val)) for val in curve_vals)
             function_vals = tuple(function(node) for node in nodes)
@@ -352,7 +352,7 @@ class Integrate:
         knots = knotvector.knots
         integrals = []
         for start, end in zip(knots[:-1], knots[1:]):
-            nodes = tuple(start + (end - start) * node for node in nodes_0to1)
+            nodes = tuple((1 - node) * start + node * end for node in nodes_0to1)
             function_vals = tuple(function(node) for node in nodes)
             new_integral = sum(map(np.prod, zip(integ_array, function_vals)))
             integrals.append((end - start) * new_integral)
